@@ -12,6 +12,7 @@ from ..decorators import (
     _inplace_enabled_define_and_cleanup,
     _manage_log_level_via_verbosity,
 )
+from ..functions import _creation_commands_literal
 from ..mixin.container import Container
 from ..mixin.files import Files
 from ..mixin.netcdf import NetCDFHDF5
@@ -1700,28 +1701,41 @@ class Data(Container, NetCDFHDF5, Files, core.Data):
                     "can not have the value 'mask'"
                 )
             masked = True
-            array = self.filled().array.tolist()
+            if self.dtype.kind == "b":
+                # Boolean data have no default fill value
+                array = self.filled(False).array
+            else:
+                array = self.filled().array
         else:
             masked = False
-            array = self.array.tolist()
+            array = self.array
+
+        if array.dtype.kind in "fc" and not np.isfinite(array).all():
+            # Infinities and NaNs have no literal: write them as
+            # float('inf'), float('nan')
+            array = _creation_commands_literal(array)
+        else:
+            array = repr(array.tolist())
 
         units = self.get_units(None)
         if units is None:
             units = ""
         else:
-            units = f", units={units!r}"
+            units = f", units={_creation_commands_literal(units)}"
 
         calendar = self.get_calendar(None)
         if calendar is None:
             calendar = ""
         else:
-            calendar = f", calendar={calendar!r}"
+            calendar = f", calendar={_creation_commands_literal(calendar)}"
 
         fill_value = self.get_fill_value(None)
         if fill_value is None:
             fill_value = ""
         else:
-            fill_value = f", fill_value={fill_value}"
+            fill_value = (
+                f", fill_value={_creation_commands_literal(fill_value)}"
+            )
 
         dtype = self.dtype.descr[0][1][1:]
 
@@ -1741,7 +1755,7 @@ class Data(Container, NetCDFHDF5, Files, core.Data):
 
         out = []
         out.append(
-            f"{name}{namespace}{self.__class__.__name__}({array!r}{units}"
+            f"{name}{namespace}{self.__class__.__name__}({array}{units}"
             f"{calendar}, dtype={dtype!r}{mask}{fill_value})"
         )
 
